@@ -57,8 +57,11 @@ fn with_world<R>(name: &str, cfg: Config, f: impl FnOnce(&mut dyn World) -> R) -
         "Mpod" => go!(MapWorld::<PodKey, u32>::new(cfg)),
         "M208" => go!(MapWorld::<Key8, Big200>::new(cfg)),
         "M64a" => go!(MapWorld::<Key8, Align64>::new(cfg)),
+        "Mz" => go!(MapWorld::<Key8, ()>::new(cfg)),
         "M5" => go!(MapWorld::<KeyU8, P4>::new(cfg)),
         "M6" => go!(MapWorld::<KeyU16, P4>::new(cfg)),
+        "Sz" => go!(SetWorld::<KeyZ>::new(cfg)),
+        "Mzz" => go!(MapWorld::<KeyZ, ()>::new(cfg)),
         "S1" => go!(SetWorld::<KeyU8>::new(cfg)),
         "S2" => go!(SetWorld::<KeyU16>::new(cfg)),
         "S8" => go!(SetWorld::<Key8>::new(cfg)),
